@@ -35,14 +35,16 @@ import (
 	"k8s.io/apimachinery/pkg/watch"
 	"k8s.io/client-go/informers"
 	k8sfake "k8s.io/client-go/kubernetes/fake"
-	clientgoscheme "k8s.io/client-go/kubernetes/scheme"
 	k8stesting "k8s.io/client-go/testing"
 	"k8s.io/client-go/tools/record"
+	"k8s.io/client-go/util/workqueue"
 	ctrl "sigs.k8s.io/controller-runtime"
 	"sigs.k8s.io/controller-runtime/pkg/client"
 	"sigs.k8s.io/controller-runtime/pkg/client/fake"
 	"sigs.k8s.io/controller-runtime/pkg/client/interceptor"
+	"sigs.k8s.io/controller-runtime/pkg/event"
 	ctrllog "sigs.k8s.io/controller-runtime/pkg/log"
+	"sigs.k8s.io/controller-runtime/pkg/reconcile"
 
 	schedulingv1alpha2 "github.com/NVIDIA/KAI-scheduler/pkg/apis/scheduling/v1alpha2"
 	"github.com/NVIDIA/KAI-scheduler/pkg/binder/binding"
@@ -55,12 +57,15 @@ import (
 )
 
 const (
-	ReservationNS    = constants.DefaultResourceReservationName
-	ScalingNS        = constants.DefaultScaleAdjustName
-	SchedulerName    = constants.DefaultSchedulerName
-	IndexAnnotation  = "run.ai/reserve_for_gpu_index" // resourcereservation.gpuIndexAnnotationName
-	CMAnnotation     = "runai/shared-gpu-configmap"   // gpusharingconfigmap.gpuSharingConfigMapAnnotation
-	AllocationWaitMS = 25                             // the service's allocation timeout (only the mute/timeout path waits for it)
+	ReservationNS   = constants.DefaultResourceReservationName
+	ScalingNS       = constants.DefaultScaleAdjustName
+	SchedulerName   = constants.DefaultSchedulerName
+	IndexAnnotation = "run.ai/reserve_for_gpu_index" // resourcereservation.gpuIndexAnnotationName
+	CMAnnotation    = "runai/shared-gpu-configmap"   // gpusharingconfigmap.gpuSharingConfigMapAnnotation
+	// AllocationWait is the service's allocation timeout. It must never fire by itself: a time-out that
+	// depends on machine load would turn wall-clock into a verdict. The "reservation pod never reports"
+	// path is reached through a closed watch / a watch error event instead (same handling in the code).
+	AllocationWait = 10 * time.Minute
 )
 
 func init() {
@@ -81,7 +86,7 @@ func init() {
 type Fault struct {
 	K    int    `json:"k"`
 	Mode string `json:"mode"`          // "error": call K fails, nothing applied; "crash": fail-stop from call K on (all actors); "mute": watch K opens but never delivers an index
-	Err  string `json:"err,omitempty"` // error: internal|conflict|timeout|unavailable ; mute: closed|errorevent|timeout
+	Err  string `json:"err,omitempty"` // error: internal|conflict|timeout|unavailable ; mute: closed|errorevent
 }
 
 // Call is one numbered client call.
@@ -178,9 +183,21 @@ func (s *Sim) TakeMarks() []string {
 	return m
 }
 
+var (
+	schemeOnce   sync.Once
+	sharedScheme *runtime.Scheme
+)
+
+// NewScheme returns the (shared, read-only after construction) scheme of the store.
 func NewScheme() *runtime.Scheme {
+	schemeOnce.Do(func() { sharedScheme = buildScheme() })
+	return sharedScheme
+}
+
+func buildScheme() *runtime.Scheme {
 	s := runtime.NewScheme()
-	must(clientgoscheme.AddToScheme(s))
+	// core/v1 only: the fake client rebuilds a REST mapper from the scheme on every patch
+	must(v1.AddToScheme(s))
 	must(schedulingv1alpha2.AddToScheme(s))
 	return s
 }
@@ -629,8 +646,6 @@ func (s *Sim) watch(list client.ObjectList, muted string, opts ...client.ListOpt
 		w := watch.NewFakeWithChanSize(1, false)
 		w.Error(&metav1.Status{Status: metav1.StatusFailure, Message: "verif: watch error event", Code: 500})
 		return w, nil
-	case "timeout":
-		return watch.NewFakeWithChanSize(1, false), nil
 	}
 	pod := &v1.Pod{}
 	if err := s.Base.Get(context.Background(), client.ObjectKey{Namespace: lo.Namespace, Name: name}, pod); err != nil {
@@ -739,7 +754,7 @@ type Proc struct {
 func (s *Sim) NewProc() *Proc {
 	p := &Proc{Sim: s}
 	p.RRS = resourcereservation.NewService(false, s.Client, "registry/local/kai-scheduler/resource-reservation",
-		AllocationWaitMS*time.Millisecond, ReservationNS, ReservationNS, ReservationNS, ScalingNS, "", nil)
+		AllocationWait, ReservationNS, ReservationNS, ReservationNS, ScalingNS, "", nil)
 	bp := plugins.New()
 	factory := informers.NewSharedInformerFactory(s.Kube, 0)
 	k8s, err := k8splugins.New(s.Kube, factory, 5)
@@ -778,4 +793,54 @@ func SortedKeys[V any](m map[string]V) []string {
 	}
 	sort.Strings(out)
 	return out
+}
+
+// ---------------------------------------------------------------------------------------------
+// environment steps and event handlers
+
+// EnvStep is a schedulable point of an actor that is not a client call of the binder: the
+// environment (user, kubelet, scheduler) changes the store. It parks at the schedule gate like a
+// call and is logged, but is never failed.
+func (s *Sim) EnvStep(what, key string) {
+	id := s.currentActor()
+	if id > 0 && s.sched != nil {
+		s.sched.park(id)
+	}
+	s.mu.Lock()
+	s.seq++
+	s.calls = append(s.calls, Call{Seq: s.seq, Actor: id, Verb: "env", Kind: what, Key: key})
+	s.mu.Unlock()
+}
+
+// NopQueue satisfies the work-queue parameter of the event handlers; enqueued reconcile requests of
+// the pod controller are irrelevant (its Reconcile is empty).
+type NopQueue struct{}
+
+func (NopQueue) Add(reconcile.Request)                     {}
+func (NopQueue) Len() int                                  { return 0 }
+func (NopQueue) Get() (reconcile.Request, bool)            { return reconcile.Request{}, true }
+func (NopQueue) Done(reconcile.Request)                    {}
+func (NopQueue) ShutDown()                                 {}
+func (NopQueue) ShutDownWithDrain()                        {}
+func (NopQueue) ShuttingDown() bool                        { return false }
+func (NopQueue) AddAfter(reconcile.Request, time.Duration) {}
+func (NopQueue) AddRateLimited(reconcile.Request)          {}
+func (NopQueue) Forget(reconcile.Request)                  {}
+func (NopQueue) NumRequeues(reconcile.Request) int         { return 0 }
+
+var _ workqueue.TypedRateLimitingInterface[reconcile.Request] = NopQueue{}
+
+// PodUpdated delivers a pod update event to the pod controller's handlers.
+func (p *Proc) PodUpdated(old, new *v1.Pod) {
+	p.Pods.VerifEventHandlers().UpdateFunc(context.Background(), event.UpdateEvent{ObjectOld: old, ObjectNew: new}, NopQueue{})
+}
+
+// PodDeleted delivers a pod delete event to the pod controller's handlers.
+func (p *Proc) PodDeleted(pod *v1.Pod) {
+	p.Pods.VerifEventHandlers().DeleteFunc(context.Background(), event.DeleteEvent{Object: pod}, NopQueue{})
+}
+
+// RequestDeleted delivers a BindRequest delete event to the BindRequest controller's handlers.
+func (p *Proc) RequestDeleted(br *schedulingv1alpha2.BindRequest) {
+	p.Reconciler.VerifEventHandlers().DeleteFunc(context.Background(), event.DeleteEvent{Object: br}, NopQueue{})
 }
